@@ -154,8 +154,11 @@ Tests == {If(Var("a"), ThenElse[1], ThenElse[2]), If(Bin("==", Var("X"), Num(0))
 F7a == {Prog("F7a", <<p, q>>) : p \in Pool, q \in Tests}
 F7b == {Prog("F7b", <<p, q, r>>) : p \in Pool, q \in Pool, r \in Tests}
 
+AllFams == F1a \cup F1b \cup F1c \cup F1d \cup F1e \cup F1f \cup F1g \cup F2a \cup F2b \cup F2c
+           \cup F3a \cup F3b \cup F3c \cup F4 \cup F5a \cup F5b \cup F7a \cup F7b
 Family ==
-  CASE Fam = "F1a" -> F1a [] Fam = "F1b" -> F1b [] Fam = "F1c" -> F1c [] Fam = "F1d" -> F1d
+  CASE Fam = "ALL" -> AllFams
+    [] Fam = "F1a" -> F1a [] Fam = "F1b" -> F1b [] Fam = "F1c" -> F1c [] Fam = "F1d" -> F1d
     [] Fam = "F1e" -> F1e [] Fam = "F1f" -> F1f [] Fam = "F1g" -> F1g
     [] Fam = "F2a" -> F2a [] Fam = "F2b" -> F2b [] Fam = "F2c" -> F2c
     [] Fam = "F3a" -> F3a [] Fam = "F3b" -> F3b [] Fam = "F3c" -> F3c
